@@ -267,3 +267,11 @@ impl From<Window> for isize {
         w.0 as isize
     }
 }
+
+#[cfg(feature = "verif-hooks")]
+impl FlowControl {
+    /// (window_size, available), both signed.
+    pub fn verif_raw(&self) -> (i32, i32) {
+        (self.window_size.0, self.available.0)
+    }
+}
